@@ -7,5 +7,6 @@ pub mod dfa;
 pub mod ev;
 pub mod front;
 pub mod model;
+pub mod sink;
 
 pub mod checks;
